@@ -27,7 +27,7 @@ func checkC15(w *World, r *Report, tier string) propMeta {
 	c13R1(w, r)     // the merge output is referenced only after footer-ok and Close-ok
 	c13R2R3R4(w, r) // sources removed only after the one Update-ok; outputs removed only on failure paths before it
 	return propMeta{
-		explanation: "The publish protocol of FileSystemDataStore as path rules: (R1) in renameOnCloseFile.Close the rename follows Sync-ok then Close-ok of the temp file, and `published = true` / `return nil` follow Rename-ok then syncDir-ok of the final path's directory; syncDir reports a failed fsync; (R2) both creates in CreateFile are O_CREATE|O_EXCL, the reservation of the final .dat path precedes the temp create, and every failure after the reservation removes it before returning or redrawing; (R3) the directory scan yields only .dat entries whose footer parsed (readFileMetadata-ok), and the temp suffix differs from the scanned one; (R4) TombstoneFile removes the final path on every path and the derived temp path whenever the pointer ends in .dat; Abort removes both unless published; (R5) commit atomicity and durability of Update — known findings F1 (writes ignored) and F2 (removals not followed by a directory fsync, their errors dropped).",
+		explanation: "The publish protocol of FileSystemDataStore as path rules: (R1) in renameOnCloseFile.Close the rename follows Sync-ok then Close-ok of the temp file, and `published = true` / `return nil` follow Rename-ok then syncDir-ok of the final path's directory; syncDir reports a failed fsync; (R2) both creates in CreateFile are O_CREATE|O_EXCL, the reservation of the final .dat path precedes the temp create, and every failure after the reservation removes it before returning or redrawing; (R3) the directory scan yields only .dat entries whose footer parsed (readFileMetadata-ok), and the temp suffix differs from the scanned one; (R4) TombstoneFile removes the final path on every path and the derived temp path whenever the pointer ends in .dat, and that temp path is derived only through end-anchored string functions (TrimSuffix/CutSuffix, not Replace); Abort removes both unless published; (R5) commit atomicity and durability of Update — known findings F1 (writes ignored) and F2 (removals not followed by a directory fsync, their errors dropped).",
 		notDecided:  "The crash-point enumeration itself (needs a filesystem hook and execution — outside this family); what a real filesystem persists between fsyncs.",
 	}
 }
@@ -39,7 +39,7 @@ func checkC16(w *World, r *Report, tier string) propMeta {
 	c15R4(w, r, "C16.R5")
 	c16R1(w, r)
 	return propMeta{
-		explanation: "Structural conformance of FileSystemDataStore to its specification: (R1) CreateFile returns as pointer the very path it reserved (the .dat name), hands the writer that path as finalPath and the .tmp sibling as tempPath; OpenFile opens exactly the pointer; the name-draw loop retries only on IsExist; plus the publish-protocol rules shared with C15 (R2–R5 here = C15.R1–R4): exclusive creates, reservation before temp, rename only after sync+close, scan limited to parsed .dat files, tombstone/abort remove every artifact.",
+		explanation: "Structural conformance of FileSystemDataStore to its specification: (R1) CreateFile returns as pointer the very path it reserved (the .dat name), hands the writer that path as finalPath and the .tmp sibling as tempPath; OpenFile opens exactly the pointer; the name-draw loop retries only on IsExist; plus the publish-protocol rules shared with C15 (R2–R5 here = C15.R1–R4): exclusive creates, reservation before temp, rename only after sync+close, scan limited to parsed .dat files, tombstone/abort remove every artifact (the tombstoned temp path is the pointer with only its trailing .dat swapped).",
 		notDecided:  "The history-level specification (arbitrary call sequences, forced collisions, payload equality) — needs execution against a model.",
 	}
 }
@@ -111,6 +111,7 @@ func strConstsOf(w *World, v ssa.Value) map[string]bool {
 		case *ssa.Call:
 			n := w.calleeName(&x.Call)
 			if strings.HasPrefix(n, "path/filepath.") || strings.HasPrefix(n, "strings.") {
+				out["call:"+n] = true // which string functions the value went through (c15R4: suffix-anchored or not)
 				for _, a := range x.Call.Args {
 					rec(a, d+1)
 					for _, e := range variadicElems(a) {
@@ -371,9 +372,16 @@ func c15R3(w *World, r *Report, rule string) {
 	}
 }
 
+// string functions through which "pointer minus trailing .dat" may be derived
+// without touching anything but the end of the string
+var suffixAnchoredStringFn = map[string]bool{
+	"strings.TrimSuffix": true, "strings.CutSuffix": true, "strings.HasSuffix": true, "strings.Clone": true,
+}
+
 func c15R4(w *World, r *Report, rule string) {
 	r.rule(rule, "tombstone/abort remove every artifact: TombstoneFile removes the pointer's path on every path and the derived .tmp whenever the pointer ends in .dat; Abort removes temp and reservation unless published", 3)
 	if fn := fnOrUndecided(w, r, rule, "FileSystemDataStore.TombstoneFile"); fn != nil {
+		unanchored, unanchoredAt := "", ""
 		cl := &Classifier{
 			Call: func(site ssa.Instruction, c *ssa.CallCommon) *Event {
 				if w.calleeName(c) != "os.Remove" {
@@ -384,6 +392,19 @@ func c15R4(w *World, r *Report, rule string) {
 				}
 				sc := strConstsOf(w, c.Args[0])
 				if sc[".tmp"] && sc[".dat"] {
+					// the temp sibling is the pointer with its *trailing* ".dat"
+					// swapped for ".tmp" (CreateFile builds both from one base):
+					// a derivation through a string function that is not anchored
+					// at the end (Replace, ReplaceAll, Trim/TrimRight cutsets,
+					// Split, Index…) rewrites a ".dat" elsewhere in the path — a
+					// root directory named "x.dat.d" — and removes the wrong file
+					for k := range sc {
+						if strings.HasPrefix(k, "call:strings.") && !suffixAnchoredStringFn[strings.TrimPrefix(k, "call:")] {
+							unanchored = strings.TrimPrefix(k, "call:")
+							unanchoredAt = w.instrPos(site)
+							return nil
+						}
+					}
 					return ev("rm:temp", "tempHandled")
 				}
 				return nil
@@ -398,6 +419,11 @@ func c15R4(w *World, r *Report, rule string) {
 			},
 		}
 		fl := newFlow(w, fn, cl)
+		if unanchored != "" {
+			r.check(false, rule, "TombstoneFile:temp-path-suffix-anchored", unanchoredAt, "", "the temp path TombstoneFile removes is derived from the pointer through "+unanchored+", which is not anchored at the end of the string: a \".dat\" elsewhere in the path (a root directory whose name contains it) is rewritten instead and the real .tmp of an unfinished write survives")
+		} else {
+			r.check(true, rule, "TombstoneFile:temp-path-suffix-anchored", w.pos(fn.Pos()), "the removed temp path swaps only the trailing .dat (TrimSuffix/CutSuffix/filepath functions)", "")
+		}
 		for i, ret := range fl.Returns() {
 			f := fl.Before(ret)
 			r.check(f.Must("rm:final") && f.Must("tempHandled"), rule, fmt.Sprintf("TombstoneFile:return#%d", i), w.instrPos(ret), "final path and derived temp removed", fmt.Sprintf("TombstoneFile can return with final-removed=%v temp-handled=%v: artifacts of an aborted write survive", f.Must("rm:final"), f.Must("tempHandled")))
